@@ -9,10 +9,13 @@
 //!
 //! all through `spindalis_core::integrals::analytical_integral` on both polynomial types.  The
 //! polynomials come out of the real parsers (text generators of c03.rs).  The oracles are exact
-//! rationals in tools/props/c04.py; the only verdict produced here is "the operation panicked".
+//! rationals in tools/props/c04.py; the verdicts produced here are "the operation panicked" and the
+//! agreement of the duplicated entry points (free functions against trait methods) on every step.
 use crate::c03::{self, gen_inter_text, gen_simple_text, parse_inter, parse_simple, pick_var, poly_names, strip_txt};
 use crate::polyio::*;
 use crate::util::*;
+use spindalis_core::integrals::intermediate_indefinite::indefinite_integral_intermediate;
+use spindalis_core::integrals::simple_indefinite::indefinite_integral_simple;
 use spindalis_core::integrals::{IntegralError, analytical_integral};
 
 fn show_integral(r: Result<f64, IntegralError>) -> String {
@@ -27,27 +30,99 @@ pub fn analytical(p: &AnyPoly, a: f64, b: f64) -> String {
     show_integral(with_poly!(p, q => analytical_integral(q, a, b)))
 }
 
-fn answer(line: &str) -> String {
+/// the free functions `indefinite_integral_simple` / `indefinite_integral_intermediate` (owned and borrowed variable
+/// name, slice and Deref forms) and the trait methods duplicate each other: the result `res` of an integration step
+/// must be what the free function gives
+pub fn integ_agrees(src: &AnyPoly, s: &c03::Step, res: &AnyPoly) -> Result<(), String> {
+    use c03::Step;
+    match (src, s, res) {
+        (AnyPoly::S(q), Step::I, AnyPoly::S(r)) => {
+            let f = catch(|| indefinite_integral_simple(q)).ok_or("indefinite_integral_simple panicked")?;
+            if !c03::same_coeffs(&f.coefficients, &r.coefficients) || f.variable != r.variable {
+                return Err("indefinite_integral_univariate differs from indefinite_integral_simple on the same polynomial".into());
+            }
+        }
+        (AnyPoly::S(q), Step::JV(v), AnyPoly::S(r)) => {
+            if v.chars().next() == q.variable {
+                let f = catch(|| indefinite_integral_simple(q)).ok_or("indefinite_integral_simple panicked")?;
+                if !c03::same_coeffs(&f.coefficients, &r.coefficients) || f.variable != r.variable {
+                    return Err(format!("indefinite_integral_multivariate({v:?}) differs from indefinite_integral_simple"));
+                }
+            }
+        }
+        (AnyPoly::I(q), Step::I, AnyPoly::I(r)) => {
+            let var = q.variables.first().cloned().unwrap_or_else(|| "x".to_string());
+            let f = catch(|| indefinite_integral_intermediate(&q.terms, &var)).ok_or("indefinite_integral_intermediate panicked")?;
+            if !c03::same_terms(&f.terms, &r.terms) || f.variables != r.variables {
+                return Err(format!("indefinite_integral_univariate differs from indefinite_integral_intermediate(terms, {var:?})"));
+            }
+        }
+        (AnyPoly::I(q), Step::JV(v), AnyPoly::I(r)) => {
+            let f = catch(|| indefinite_integral_intermediate(&q.terms, v.as_str())).ok_or("indefinite_integral_intermediate panicked")?;
+            let g = catch(|| indefinite_integral_intermediate(&**q, v.clone())).ok_or("indefinite_integral_intermediate panicked")?;
+            if !c03::same_terms(&f.terms, &r.terms) || f.variables != r.variables || !c03::same_terms(&g.terms, &r.terms) || g.variables != r.variables {
+                return Err(format!("indefinite_integral_multivariate({v:?}) differs from indefinite_integral_intermediate(terms, {v:?})"));
+            }
+        }
+        _ => {}
+    }
+    Ok(())
+}
+
+/// replays the steps of a shared request and compares every integration step with the free functions
+fn free_verdict(line: &str) -> Result<(), String> {
+    use c03::Step;
+    let mut t = Toks::new(line);
+    let cmd = t.tok();
+    let mut p = read_any(&mut t);
+    let steps: Vec<Step> = match cmd {
+        "integ" => vec![Step::I],
+        "pinteg" => vec![Step::JV(t.string())],
+        "chain" | "chainm" => {
+            let k = t.usize();
+            (0..k).map(|_| c03::read_step(&mut t)).collect()
+        }
+        _ => vec![],
+    };
+    for s in &steps {
+        match c03::apply_step(&p, s) {
+            Ok(q) => {
+                match s {
+                    Step::I | Step::JV(_) => integ_agrees(&p, s, &q)?,
+                    _ => c03::free_agrees(&p, s, &q)?,
+                }
+                p = q;
+            }
+            Err(_) => break,
+        }
+    }
+    Ok(())
+}
+
+fn answer(line: &str) -> (String, Result<(), String>) {
     let mut t = Toks::new(line);
     match t.tok() {
         "analytical" => {
             let p = read_any(&mut t);
             let (a, b) = (t.f64(), t.f64());
-            analytical(&p, a, b)
+            (analytical(&p, a, b), Ok(()))
         }
         "additive" => {
             let p = read_any(&mut t);
             let (a, c, b) = (t.f64(), t.f64(), t.f64());
-            format!("{} | {} | {}", analytical(&p, a, c), analytical(&p, c, b), analytical(&p, a, b))
+            (format!("{} | {} | {}", analytical(&p, a, c), analytical(&p, c, b), analytical(&p, a, b)), Ok(()))
         }
         "swap" => {
             let p = read_any(&mut t);
             let (a, b) = (t.f64(), t.f64());
-            format!("{} | {}", analytical(&p, a, b), analytical(&p, b, a))
+            (format!("{} | {}", analytical(&p, a, b), analytical(&p, b, a)), Ok(()))
         }
         _ => {
-            // shared commands (integ, pinteg, chain, chainm): C03's runner without its closure verdict
-            c03::run(line).obs
+            // shared commands (integ, pinteg, chain, chainm): C03's runner without its closure verdict, with the
+            // agreement of the duplicated entry points instead
+            let obs = c03::run(line).obs;
+            let v = if obs == "panic" { Ok(()) } else { catch(|| free_verdict(line)).unwrap_or_else(|| Err("replaying the steps panicked".into())) };
+            (obs, v)
         }
     }
 }
@@ -55,7 +130,7 @@ fn answer(line: &str) -> String {
 pub fn run(line: &str) -> Obs {
     let line = strip_txt(line);
     match catch(|| answer(&line)) {
-        Some(s) if s != "panic" => Obs::plain(s),
+        Some((s, v)) if s != "panic" => Obs::with(s, v),
         _ => Obs::with("panic".into(), Err("the operation panicked".into())),
     }
 }
@@ -90,16 +165,79 @@ fn bound(rng: &mut Rng, any: bool) -> f64 {
     }
 }
 
+/// a pair of bounds: independent (as before), or one of the relations a subtle guard needs - a narrow interval away
+/// from 0 (relative width 2^-1..2^-50), both bounds tiny with a tiny gap, equal, symmetric, a zero (of either sign)
+fn bounds_pair(rng: &mut Rng, any: bool) -> (f64, f64) {
+    let sign = |rng: &mut Rng, v: f64| if any && rng.chance(1, 3) { -v } else { v };
+    let (a, b) = match rng.below(12) {
+        0 | 1 => {
+            let a = rng.range(1, 8) as f64 * 2f64.powi(rng.range(-40, 10) as i32);
+            let b = a * (1.0 + 2f64.powi(-(rng.range(1, 50) as i32)));
+            let s = sign(rng, 1.0);
+            (a * s, b * s)
+        }
+        2 => {
+            // both tiny (or both around 2^-20), gap far below f64::EPSILON in absolute terms
+            let a = rng.range(0, 8) as f64 * 2f64.powi(-(rng.range(20, 80) as i32));
+            let g = rng.range(1, 5) as f64 * 2f64.powi(-(rng.range(54, 100) as i32));
+            let s = sign(rng, 1.0);
+            let a = if !any && a == 0.0 { g } else { a };
+            (a * s, (a + g) * s)
+        }
+        3 => {
+            let a = bound(rng, any);
+            (a, a)
+        }
+        4 if any => {
+            let a = bound(rng, false);
+            (-a, a)
+        }
+        5 if any => (if rng.chance(1, 2) { 0.0 } else { -0.0 }, bound(rng, any)),
+        6 => {
+            // wide: one bound small, the other large
+            let lo = 2f64.powi(-(rng.range(1, 60) as i32));
+            let hi = 2f64.powi(rng.range(1, 12) as i32);
+            (sign(rng, lo), sign(rng, hi))
+        }
+        _ => (bound(rng, any), bound(rng, any)),
+    };
+    if rng.chance(1, 2) { (a, b) } else { (b, a) }
+}
+
+/// a split point for the additivity clause: inside, outside, on a bound, anywhere
+fn split_point(rng: &mut Rng, a: f64, b: f64, any: bool) -> f64 {
+    match rng.below(6) {
+        0 => a,
+        1 => b,
+        2 => a + (b - a) * *rng.pick(&[0.5, 0.25, 0.75, 0.125]),
+        3 => {
+            let c = b + (b - a);
+            if any || c > 0.0 { c } else { b }
+        }
+        _ => bound(rng, any),
+    }
+}
+
 pub const FIXED_INTER: &[&str] = &[
     "xx", "5", "x^3 + x^2", "x^0", "x^1/2", "2xy", "", "0", "-x", "xx^-1", "x^2y^2 + y", "3x^2 - 2x + 1", "x + y + z",
     "-7", "1/2x^-1/2", "yx", "zyx^2", "4x^0.5 - 3", "x^1.5 + x^2.5", "2.5", "1/3x^3", "x^-2 + x^-3", "y^2", "t^2 + 1",
     "b + a", "x^-1",
+    // hardening: powers next to -1 (the divisor p + 1 next to 0), powers that meet -1 / 0 after merging, case pairs,
+    // extreme exponents and coefficients, many terms
+    "x^-0.9999999999999999", "x^-1.0000000000000002 + x", "x^-0.999999999", "x^-1.000000001y", "x^-0.99 + x^-1.01", "x^-2x + x", "x^-1/2x^-1/2 + 2",
+    "x^1/3x^2/3", "xX", "Xx^2 + x", "aA^2b", "x^300", "x^-300", "x^65536", "x^4294967296", "x^255 + x^256",
+    "0.0000000000000000000000000000000000000001x^2", "1000000000000000000000000000000000000000x^3", "0x^2 + 0", "-0x",
+    "x + x + x + x + x + x + x + x + x", "abcdefghij", "x^0.0000001", "x^-0 + 1",
 ];
 pub const FIXED_SIMPLE: &[&str] =
     &[
     // the largest exponents the parser accepts (MAX_POWER = 65536) and its neighbours
     "x^65536", "3x^65535 + x", "x^65537", "2y^065536 - y^65535",
-    "5", "x^3 + x^2", "x", "", "0", "-x", "3x^2 - 2x + 1", "x^0", "2.5y^4 - y + .5", "t^9", "x^2 + x^2", "7 - 7"];
+    "5", "x^3 + x^2", "x", "", "0", "-x", "3x^2 - 2x + 1", "x^0", "2.5y^4 - y + .5", "t^9", "x^2 + x^2", "7 - 7",
+    // hardening: lengths around the powers of two, cancelled leading terms, extreme coefficients, other letters
+    "x^255 + x^256 + x^257", "2x^15 - x^16 + x^17 + x^8 + x^9", "x^31 + x^32 + x^33 + 1", "x^64 - x^63 + x^65", "x^1000 + x",
+    "x^5 - x^5", "0.0000000000000000000000000000000000000001x^3 + x", "1000000000000000000000000000000000000000x^2",
+    "X^3 + X", "é^4 - é", "0x^7", "-0x^3 + x"];
 
 fn emit_for(rng: &mut Rng, text: &str, p: &AnyPoly, emit: &mut dyn FnMut(String), all: bool) {
     let ps = req_any(p);
@@ -108,6 +246,10 @@ fn emit_for(rng: &mut Rng, text: &str, p: &AnyPoly, emit: &mut dyn FnMut(String)
     let any = natural_exponents(p);
     let mut kinds: Vec<u64> = if all { vec![0, 1, 2, 3, 4, 5, 6] } else { vec![rng.below(7), rng.below(7)] };
     kinds.dedup();
+    if all && ps.len() < 100_000 {
+        // the fixed texts see every pair family
+        kinds.extend_from_slice(&[2, 2, 3, 4, 2, 3]);
+    }
     for mut kind in kinds {
         // the univariate entry points on a multivariate polynomial are only an error: keep that rare
         if names.len() > 1 && !all && matches!(kind, 0 | 2 | 3 | 4) && rng.chance(4, 5) {
@@ -116,15 +258,22 @@ fn emit_for(rng: &mut Rng, text: &str, p: &AnyPoly, emit: &mut dyn FnMut(String)
         match kind {
             0 => emit(format!("{pre} integ {ps}")),
             1 => {
-                let v = if rng.chance(1, 4) { "w".to_string() } else { pick_var(rng, &names) };
+                let v = if rng.chance(1, 4) { rng.pick(&["w", "w", "m", "A", "Z", "zz", "B"]).to_string() } else { pick_var(rng, &names) };
                 emit(format!("{pre} pinteg {ps} {}", req_string(&v)))
             }
-            2 => emit(format!("{pre} analytical {ps} {} {}", rbits(bound(rng, any)), rbits(bound(rng, any)))),
+            2 => {
+                let (a, b) = bounds_pair(rng, any);
+                emit(format!("{pre} analytical {ps} {} {}", rbits(a), rbits(b)))
+            }
             3 => {
-                let (a, c, b) = (bound(rng, any), bound(rng, any), bound(rng, any));
+                let (a, b) = bounds_pair(rng, any);
+                let c = split_point(rng, a, b, any);
                 emit(format!("{pre} additive {ps} {} {} {}", rbits(a), rbits(c), rbits(b)))
             }
-            4 => emit(format!("{pre} swap {ps} {} {}", rbits(bound(rng, any)), rbits(bound(rng, any)))),
+            4 => {
+                let (a, b) = bounds_pair(rng, any);
+                emit(format!("{pre} swap {ps} {} {}", rbits(a), rbits(b)))
+            }
             5 => {
                 // integrate, then differentiate again through the univariate interface (and variants)
                 let steps = *rng.pick(&["2 i d", "3 i i d", "3 i d d", "1 i", "2 i i"]);
@@ -132,7 +281,7 @@ fn emit_for(rng: &mut Rng, text: &str, p: &AnyPoly, emit: &mut dyn FnMut(String)
             }
             _ => {
                 // by name: ∂/∂v ∫ dv, possibly in a fresh variable
-                let v = if rng.chance(1, 4) { "w".to_string() } else { pick_var(rng, &names) };
+                let v = if rng.chance(1, 4) { rng.pick(&["w", "w", "m", "A", "Z", "zz", "B"]).to_string() } else { pick_var(rng, &names) };
                 let vs = req_string(&v);
                 let mut bound_names = names.clone();
                 bound_names.push(v.clone());
@@ -172,6 +321,29 @@ pub fn generate(seed: u64, thorough: bool, emit: &mut dyn FnMut(String)) {
             (t, p)
         } else {
             let t = gen_inter_text(&mut rng);
+            let p = parse_inter(&t);
+            (t, p)
+        };
+        if let Some(p) = p {
+            emit_for(&mut rng, &text, &p, emit, false);
+        }
+    }
+    // hardening families (own stream)
+    let mut rng = Rng::new(Rng::new(seed ^ 0xC04_0002).next());
+    for len in 6..=70usize {
+        let t = format!("{}x^{} + {}x^{} - x + {}", rng.range(1, 9), len - 1, rng.range(1, 9), len / 2, rng.range(0, 9));
+        if let Some(p) = parse_simple(&t) {
+            emit_for(&mut rng, &t, &p, emit, false);
+        }
+    }
+    let m = if thorough { 40000 } else { 900 };
+    for i in 0..m {
+        let (text, p) = if i % 3 == 2 {
+            let t = c03::gen_simple_text_hard(&mut rng);
+            let p = parse_simple(&t);
+            (t, p)
+        } else {
+            let t = c03::gen_inter_text_hard(&mut rng);
             let p = parse_inter(&t);
             (t, p)
         };
